@@ -86,6 +86,8 @@ class Emitter:
         self.rec_index = None
         self.closures = {}                # lambda record id -> info
         self.global_inits = []
+        self.extra_protos = {}
+        self.opaque = set()
         self.tmp_n = 0
         self.typedefs_needed = set()
         self.need_exc = False
@@ -209,7 +211,7 @@ class Emitter:
             return '%s (*%s)(%s)' % (self.ctype_s(m.group(1)), name, ', '.join(args))
         return '%s %s' % (self.ctype_s(q), name)
 
-    def ctype_s(self, q):
+    def ctype_s(self, q, ptr=False):
         q = q.strip()
         q = re.sub(r'\b(const|__restrict|volatile|typename)\b', '', q).strip()
         q = re.sub(r'\s+', ' ', q)
@@ -219,14 +221,14 @@ class Emitter:
             return BASE_TYPES[q]
         m = re.match(r'^(.*?)\s*(&&|&)$', q)
         if m:
-            return self.ctype_s(m.group(1)) + ' *'
+            return self.ctype_s(m.group(1), ptr=True) + ' *'
         m = re.match(r'^(.*?)\s*\*$', q)
         if m:
             inner = m.group(1).strip()
             if inner.endswith(')') and '(' in inner and not inner.endswith('>'):
                 # pointer to function written 'R (A)' *
                 return 'void *'
-            return self.ctype_s(inner) + ' *'
+            return self.ctype_s(inner, ptr=True) + ' *'
         m = re.match(r'^(.*?)\s*\(\*\)\s*\((.*)\)(\s*noexcept)?$', q)
         if m:
             return 'void *'      # function pointers are only stored/compared; calls through them abort
@@ -245,7 +247,15 @@ class Emitter:
             u = self.enum_underlying(q1)
         if u:
             return self.ctype_s(u)
-        rec = self.rec_by_name(q1)
+        try:
+            rec = self.rec_by_name(q1)
+        except Abort as a:
+            if ptr and '0 candidates' in str(a):
+                # incomplete (forward-declared) class used through a pointer/reference only
+                cn = sanitize(q1)
+                self.opaque.add(cn)
+                return 'struct ' + cn
+            raise
         return self.struct_of(rec)
 
     def rec_of_type(self, t):
@@ -1435,7 +1445,7 @@ class Emitter:
         args = e['inner'][1:]
         fid = self.callee_fn(callee)
         if fid is None:
-            raise Abort('indirect call (function pointer / dependent callee)')
+            return self.indirect_call(e, callee, args)
         fn0 = self.tu.byid.get(self.tu.first.get(fid, fid)) or self.tu.byid.get(fid)
         nm = fn0.get('name')
         par = self.tu.semantic_parent(fn0)
@@ -1462,6 +1472,44 @@ class Emitter:
         d, has = self.request(fid)
         text = '%s(%s)' % (self.fn_cname(d), ', '.join(self.args(d, args)))
         return self.finish_call(e, d, text, discard)
+
+    def indirect_call(self, e, callee, args):
+        """getter()(args): call of the function pointer returned by a getter -> abstract function getter__invoke(args)"""
+        c = callee
+        while c['kind'] in TRANSPARENT or c['kind'] == 'ImplicitCastExpr':
+            c = c['inner'][0]
+        if c['kind'] != 'CallExpr' or len(c['inner']) != 1:
+            raise Abort('indirect call (function pointer / dependent callee)')
+        gid = self.callee_fn(c['inner'][0])
+        if gid is None:
+            raise Abort('indirect call through a computed callee')
+        getter = self.tu.byid.get(self.tu.first.get(gid, gid))
+        name = self.fn_cname(getter) + '__invoke'
+        q = (c['type'].get('desugaredQualType') or c['type']['qualType']).strip()
+        m = re.match(r'^(.*?)\s*\(\*\)\s*\((.*)\)(\s*noexcept)?$', q)
+        if not m:
+            raise Abort('indirect call: cannot parse function pointer type ' + q)
+        ptypes = split_top(m.group(2))
+        ret = self.ctype_s(m.group(1))
+        cargs = []
+        for pt, a in zip(ptypes, args):
+            if pt.strip().endswith('&'):
+                cargs.append(self.addr_of(a))
+            else:
+                cargs.append(self.sub(a))
+        sig = '%s %s(%s)' % (ret, name, ', '.join('%s __a%d' % (self.ctype_s(pt), i) for i, pt in enumerate(ptypes)) or 'void')
+        self.extra_protos[name] = sig
+        self.calls.append(name)
+        text = '%s(%s)' % (name, ', '.join(cargs))
+        if not m.group(3):
+            # handlers may throw (or never return)
+            if e.get('id') is not None and e.get('id') == self.cur_top:
+                self.stmt_calls_may_throw = True
+            else:
+                self.pre.append(text + ';')
+                self.pre.append(self.exc_check())
+                return '((void)0)'
+        return text
 
     def member_call(self, e, discard=False):
         me = self.strip(e['inner'][0])
@@ -1730,6 +1778,8 @@ class Emitter:
         out.append('void __verif_stop(const char *why);')
         if with_exc:
             out += self.exc_prelude()
+        for cn in sorted(self.opaque):
+            out.append('struct %s;  /* incomplete type in this unit */' % cn)
         for rid in self.struct_order:
             out.append('struct %s;' % self.structs[rid][0])
         for rid in self.struct_order:
@@ -1748,6 +1798,11 @@ class Emitter:
                 out.append(sig + '\n' + c + ';')
             else:
                 out.append(sig + ';  /* no body in this unit, no contract */')
+        for cn, sig in sorted(self.extra_protos.items()):
+            c = contracts.get(cn)
+            if c is not None:
+                used_contracts.add(cn)
+            out.append(sig + ('\n' + c if c else '') + ';  /* call through the function pointer returned by the getter */')
         for cn in self.func_order:
             out.append(self.funcs[cn]['sig'] + ';')
         out.append('/* dynamic initialisers of namespace-scope / static member constants */')
